@@ -447,10 +447,10 @@ var c16Vocab = func() []c16Tok {
 	var v []c16Tok
 	for _, w := range []string{"select", "WHERE", "Key", "value", "limit", "order", "by", "asc", "DESC", "true", "false", "as", "group", "in", "BETWEEN", "put", "remove", "and", "OR", "delete",
 		"a", "b1", "foo_bar", "Upper", "x", "1", "42", "007", "1.5", "0.25", "k.v",
-		"LongFieldName", "L2_Distance", "COSINE_DISTANCE", "ValueAsInt9", "12345678901", "a\\b", "na\xc3\xafve"} {
+		"LongFieldName", "L2_Distance", "COSINE_DISTANCE", "ValueAsInt9", "12345678901", "a\\b", "na\xc3\xafve", "\xc3\xa0la", "tr\xc4\x85ba"} {
 		v = append(v, c16Tok{w, strings.ToLower(w), 'w'})
 	}
-	for _, s := range []string{"'x'", "\"y z\"", "'it\"s'", "\"a'b\"", "''", "' '", "'a,b'", "'sel ect'", "'(1+2)'", "\"`\"", "'AND'", "'k1'", "'dir\\'", "\"\\\\\"", "'a\\b'", "'\xc3\xa9'", "\"\xe6\x97\xa5\xe6\x9c\xac x\"", "' x '"} {
+	for _, s := range []string{"'x'", "\"y z\"", "'it\"s'", "\"a'b\"", "''", "' '", "'a,b'", "'sel ect'", "'(1+2)'", "\"`\"", "'AND'", "'k1'", "'dir\\'", "\"\\\\\"", "'a\\b'", "'\xc3\xa9'", "\"\xe6\x97\xa5\xe6\x9c\xac x\"", "' x '", "'\xc3\xa0 \xc4\x85'"} {
 		v = append(v, c16Tok{s, s[1 : len(s)-1], 'q'})
 	}
 	for _, s := range []string{"`n`", "`a b`", "`X'y`"} {
@@ -462,8 +462,8 @@ var c16Vocab = func() []c16Tok {
 	return v
 }()
 
-const c16NWords = 38
-const c16NQuoted = 21
+const c16NWords = 40
+const c16NQuoted = 22
 
 // blankMandatory says whether a blank is required between two adjacent tokens
 // for them to remain two tokens (two words; or operator characters that fuse).
